@@ -31,7 +31,8 @@ EXPLANATION = ("general theorems in Props/C16.v: connectedb_spec, ncg_spec, tabl
                "'Q n k counts connected graphs' (C16_clique_identity_reduces_to_Q_count). Bounded (reflection on Q only): "
                "Q = count for n<=12 (thorough 20) and hence the clique identity for tau<=12 (thorough 20), heterogeneous H; "
                "the older bounded theorems (tau<=6, cycle n<=10, Q=QQ=brute n<=6) are kept as independent checks. Still "
-               "open: Q = count for all n (needs Cayley's formula for the k = n-1 shortcut; C16_full kept visible). "
+               "open: Q = count for all n; it is reduced to Cayley's formula for the k = n-1 shortcut n^(n-2) "
+               "(C16_Q_count_reduces_to_Cayley, C16_full_reduces_to_Cayley; C16_full kept visible). "
                "Correspondence exhaustive over (n,k) for Q n<=12, QQ n<=6, tau<=6, cycle n<=12, and all 4-vertex substrates "
                "x vertex subsets x k for the counter, plus seeded random substrates")
 ASSUMPTIONS = ["networkx Graph.copy / remove_node / remove_edge / edges / is_connected / complete_graph and "
@@ -66,6 +67,10 @@ LEVEL_TEXT = (
     "for 2<=tau<=12, heterogeneous H (clique_identity_upto_12; thorough: tau<=20). Older bounded results kept as "
     "independent checks: Q = QQ = brute by direct enumeration n<=6 (thorough 7), clique identity tau<=6 by polynomial "
     "normal forms (and again via the count: clique_identity_upto_6_via_count; thorough: upto_7), cycle n<=10 (thorough 14). "
+    "REDUCTION of everything left: a connected graph on n vertices has >= n-1 edges (connected_needs_n_minus_1_edges), "
+    "the general branch of Q's recursion is the counting identity, so Q n k = brute n k for ALL n, k follows from Cayley's "
+    "formula brute n (n-1) = n^(n-2) alone (Q_count_reduces_to_Cayley), and so does the whole C16_full "
+    "(C16_full_reduces_to_Cayley); Cayley's formula is proved only for n<=12 (Cayley_upto_12). "
     "PARTIAL: C16_full (unbounded tau and unbounded Q = count) stays visible; C16_partial_v3 is what is proved of it "
     "(clique tau<=12, cycle unbounded, Q n<=12, QQ unbounded, counter general). The model is tied to the code by exact "
     "comparison on every run (polynomials coefficient-wise), and c16_check judges the implementation's own outputs "
@@ -74,8 +79,8 @@ LEVEL_NOTE = ("Trusted: Coq kernel + vm_compute; extraction (ExtrOcamlBasic) + O
               "exact polynomial class for the correspondence; networkx primitives as modelled. For 8<=n the checker "
               "judges Q against the exponential-formula recurrence `cross`, which is now PROVED equal to the number of "
               "connected labelled graphs for every n, k (C16_cross_counts_connected_graphs) - a count, no longer only a "
-              "consistency check. Remaining gap to C16_full: Q n k = count for n > 12 (20 thorough); the general branch of "
-              "the recursion is the counting identity already proved, the k = n-1 shortcut n^(n-2) needs Cayley's formula. "
+              "consistency check. Remaining gap to C16_full: Q n k = count for n > 12 (20 thorough); it is exactly Cayley's "
+              "formula for the k = n-1 shortcut n^(n-2) (C16_full_reduces_to_Cayley: Cayley -> C16_full is a theorem). "
               "No axioms (Print Assumptions: closed under the global context).")
 
 IMPL_TIMEOUT = 120.0
